@@ -495,6 +495,152 @@ func runC06(c *Ctx) {
 			c.Undecided("core/state.StateDB.validatorObjects#writers", 0, fmt.Sprintf("only %d writers of the live validator map found", nW))
 		}
 	}
+	// ------------------------------------------------------------ N7
+	c.Rule("C06.N7", "ORDER", "the importer replays the slashing evidences in the order of header.SlashData, the builder has applied them (state changes, logs) in the order processEvidences confirmed them: between that call and the encoding into the header the builder does not reorder the confirmed list — no sort.* call and no element store on it in (*Staking).slashing. Otherwise, with two evidences confirmed in one block, builder and importer emit the slashing logs in different orders and the block is rejected by every node (invalid receipt root)")
+	c.Min(1)
+	{
+		sl := w.Fn("staking", "Staking", "slashing")
+		c.sawFunc(fname(sl))
+		hdrSlash := w.Field("core/types", "Header", "SlashData")
+		n := 0
+		for _, fw := range fieldWrites(sl) {
+			if fw.Field != hdrSlash {
+				continue
+			}
+			st, ok := fw.Instr.(*ssa.Store)
+			if !ok {
+				continue
+			}
+			// the list that is encoded
+			var enc *ssa.Call
+			backward(st.Val, func(v ssa.Value) bool {
+				if cc, isCall := v.(*ssa.Call); isCall {
+					if o := calleeObj(cc); o != nil && strings.HasPrefix(o.Name(), "Encode") && enc == nil {
+						enc = cc
+					}
+					return false
+				}
+				return enc == nil
+			})
+			if enc == nil {
+				continue
+			}
+			n++
+			c.sites++
+			list := enc.Call.Args[len(enc.Call.Args)-1]
+			// the list itself, or the value it is a copy / conversion of
+			origins := map[ssa.Value]bool{}
+			backward(list, func(x ssa.Value) bool {
+				switch x.(type) {
+				case *ssa.Const, *ssa.Global, *ssa.Function, *ssa.Builtin:
+					return false
+				}
+				origins[x] = true
+				_, isCall := x.(*ssa.Call)
+				return !isCall
+			})
+			isList := func(v ssa.Value) bool {
+				return derivesFrom(v, func(x ssa.Value) bool { return origins[x] })
+			}
+			bad := ""
+			for _, fn := range withClosures(sl) {
+				for _, ci := range callInstrs(fn) {
+					o := calleeObj(ci)
+					if o == nil || o.Pkg() == nil || o.Pkg().Path() != "sort" {
+						continue
+					}
+					for _, a := range callArgs(ci) {
+						if isList(a) && bad == "" {
+							bad = "sort." + o.Name() + " at " + w.Pos(ci.Pos())
+						}
+					}
+				}
+			}
+			c.Check(fmt.Sprintf("%s#header-order-is-applied-order-%d", fname(sl), n), st.Pos(), bad == "", ifelse(bad == "", "the confirmed list is encoded as processEvidences returned it", "the confirmed evidences are reordered ("+bad+") after they were applied and before they are written into the header: the importer applies them in header order, its logs and receipt root differ, and every node rejects the block"))
+		}
+		if n == 0 {
+			c.Undecided(fname(sl)+"#header-order-is-applied-order", sl.Pos(), "the store of header.SlashData from an encoded list was not found in slashing")
+		}
+	}
+
+	// ------------------------------------------------------------ N8
+	c.Rule("C06.N8", "EXHAUSTIVE", "a state object carried across a staking period (side-chain verification re-executes a fork on one StateDB) starts the new period like a freshly opened one: ResetStakingTrie gives a fresh value to every StateDB field that caches content of the staking trie — the fields that the functions reading or writing st.stakingTrie also write (live records, pending relationships and their dirty marks). A record kept from the old period is preferred over the new empty trie: the same block on the same parent state then yields a different staking root depending on the state object's history")
+	c.Min(3)
+	{
+		rs := w.Fn(statePkg, "StateDB", "ResetStakingTrie")
+		c.sawFunc(fname(rs))
+		stTrie := w.Field(statePkg, "StateDB", "stakingTrie")
+		sdb := w.Struct(statePkg, "StateDB")
+		caches := map[*types.Var]string{}
+		for _, fn := range w.FuncsIn(statePkg) {
+			if fn.Blocks == nil || fn == rs || strings.HasSuffix(w.fileOf(fn.Pos()), "_test.go") {
+				continue
+			}
+			nm := fn.Name()
+			if nm == "New" || nm == "Copy" || nm == "Reset" || nm == "Commit" || nm == "IntermediateRoot" || nm == "Finalise" || nm == "RawDump" || nm == "Dump" || nm == "RevertToSnapshot" || nm == "Snapshot" {
+				continue // whole-state lifecycle functions touch every trie
+			}
+			reads := false
+			for _, b := range fn.Blocks {
+				for _, in := range b.Instrs {
+					if u, ok := in.(*ssa.UnOp); ok {
+						if f, _ := loadedField(u); f == stTrie {
+							reads = true
+						}
+					}
+				}
+			}
+			if !reads {
+				continue
+			}
+			for _, fw := range fieldWrites(fn) {
+				if ownerOfField(sdb, fw.Field) && fw.Field != stTrie && fw.Field.Name() != "dbErr" && !isLocalAlloc(fw.Base) {
+					caches[fw.Field] = fname(fn)
+				}
+			}
+		}
+		var names []string
+		byName := map[string]*types.Var{}
+		for f := range caches {
+			names = append(names, f.Name())
+			byName[f.Name()] = f
+		}
+		sort.Strings(names)
+		if len(names) == 0 {
+			c.Undecided(fname(rs)+"#staking-caches", rs.Pos(), "no StateDB field filled from the staking trie was found")
+		}
+		for _, nm := range names {
+			f := byName[nm]
+			c.sites++
+			fresh := false
+			for _, fw := range fieldWrites(rs) {
+				if fw.Field != f || fw.Kind != "store" {
+					continue
+				}
+				st := fw.Instr.(*ssa.Store)
+				old := derivesFrom(st.Val, func(v ssa.Value) bool { lf, _ := loadedField(v); return lf == f })
+				if !old {
+					fresh = true
+				}
+			}
+			if !fresh {
+				// re-loaded from the new trie by a function ResetStakingTrie calls
+				for _, ci := range callInstrs(rs) {
+					if g := ci.Common().StaticCallee(); g != nil && g.Blocks != nil {
+						for _, fw := range fieldWrites(g) {
+							if fw.Field == f && fw.Kind == "store" {
+								st := fw.Instr.(*ssa.Store)
+								if !derivesFrom(st.Val, func(v ssa.Value) bool { lf, _ := loadedField(v); return lf == f }) {
+									fresh = true
+								}
+							}
+						}
+					}
+				}
+			}
+			c.Check(fmt.Sprintf("%s#fresh-%s", fname(rs), nm), rs.Pos(), fresh, ifelse(fresh, "assigned a fresh value", "StateDB."+nm+" (filled from the staking trie by "+caches[f]+") keeps its content across the reset: a live record of the old period shadows the new empty trie, so a carried state and a fresh state compute different staking roots for the same block"))
+		}
+	}
 }
 
 func chainMakerFuncs(w *World) []*ssa.Function {
